@@ -445,7 +445,14 @@ func TestC06Replay(t *testing.T) {
 		preScan, _ := c.Scan()
 		nontriv := false
 		note := func(v variant, place string) {
-			cse.Class("trick=" + v.class)
+			if strings.HasPrefix(v.class, "wire2:") {
+				cse.Class("trick=two-wire-tricks-composed")
+				for _, part := range strings.Split(strings.TrimPrefix(v.class, "wire2:"), "+") {
+					cse.Class("trick=wire:" + part)
+				}
+			} else {
+				cse.Class("trick=" + v.class)
+			}
 			cse.Class("place=" + place)
 			cse.ClassIf(v.nontrivial(), "variant=same-content-other-bytes")
 			cse.ClassIf(!v.decodes, "variant=undecodable")
@@ -543,7 +550,7 @@ func TestC06Replay(t *testing.T) {
 		}
 
 		// --- later blocks
-		rounds := rapid.IntRange(1, 3).Draw(rt, "later-rounds")
+		rounds := rapid.IntRange(1, 2).Draw(rt, "later-rounds")
 		for r := 0; r < rounds; r++ {
 			if rapid.IntRange(0, 3).Draw(rt, "gap") == 0 {
 				if o := mustBlock(rt, c, cs.BlockSpec{}, "gap block"); o.Err != nil {
@@ -552,7 +559,7 @@ func TestC06Replay(t *testing.T) {
 			}
 			var vs []variant
 			names = names[:0]
-			for i, n := 0, rapid.IntRange(1, 4).Draw(rt, "n-later"); i < n; i++ {
+			for i, n := 0, rapid.IntRange(2, 6).Draw(rt, "n-later"); i < n; i++ {
 				v := pool.draw(rt, "later")
 				vs = append(vs, v)
 				names = append(names, v.label)
@@ -575,7 +582,7 @@ func TestC06Replay(t *testing.T) {
 				}
 				var vs []variant
 				names = names[:0]
-				for i, n := 0, rapid.IntRange(1, 4).Draw(rt, "n-far"); i < n; i++ {
+				for i, n := 0, rapid.IntRange(2, 5).Draw(rt, "n-far"); i < n; i++ {
 					v := pool.draw(rt, "far")
 					vs = append(vs, v)
 					names = append(names, v.label)
@@ -610,12 +617,12 @@ func TestC06Replay(t *testing.T) {
 				rt.Fatalf("new chain: %v", err)
 			}
 			defer c2.Close()
-			for i, n := 0, rapid.IntRange(0, 2).Draw(rt, "other-pre"); i < n; i++ {
+			for i, n := 0, rapid.IntRange(0, 1).Draw(rt, "other-pre"); i < n; i++ {
 				mustBlock(rt, c2, cs.BlockSpec{}, "other chain pre-block")
 			}
 			vs := []variant{pool.fixed[0]}
 			names = []string{"T"}
-			for i, n := 0, rapid.IntRange(0, 2).Draw(rt, "n-other"); i < n; i++ {
+			for i, n := 0, rapid.IntRange(0, 3).Draw(rt, "n-other"); i < n; i++ {
 				v := pool.draw(rt, "other")
 				vs = append(vs, v)
 				names = append(names, v.label)
